@@ -23,18 +23,18 @@ def prepare(tier, work):
 
 
 def prepare_groups(p):
-    p['groups'].append({'name': 'pkg/message', 'pkgs': ['pkg/message'], 'roots': [r'message\.verifHarness_C03_order']})
+    p['groups'].append({'name': 'pkg/message', 'pkgs': ['pkg/message'], 'roots': [r'message\.verifHarness_C03_']})
     return p
 
 
 def tasks(tier):
     from gosym.check import Task
-    return MC.m_tasks(_state['msgs'], tier) + [Task('verifHarness_C03_order', [], {'sort_lemma': True, 'sort_lemma_types': [1, 4, 7, 9, 11] if tier == 'quick' else None},
+    return MC.m_tasks(_state['msgs'], tier) + [Task('verifHarness_C03_user', [v], pkg='pkg/message', group='pkg/message') for v in (0, 1)] + [Task('verifHarness_C03_order', [], {'sort_lemma': True, 'sort_lemma_types': [1, 4, 7, 9, 11] if tier == 'quick' else None},
                                                   pkg='pkg/message', group='pkg/message')]
 
 
 def required_reach(tier):
-    return ['M', 'C03/order']
+    return ['M', 'C03/order', 'C03/U']
 
 
 def bounds(tier):
@@ -44,6 +44,7 @@ def bounds(tier):
                 '; plus declared length + 1 for single-string messages up to char[32]' if tier == 'quick'
                 else '; lengths 0, 1, declared, declared+1 for single-string messages (<= 2 otherwise)'),
             'v2_truncation': 'trailing-zero classes: none / all zero / exactly one / (thorough: exactly two; unconstrained for messages <= 64 bytes)',
+            'user_struct': 'one hand-specified user struct with a one-element array, a single char, a char[1], a mavname, an int32 enum and an extension array: CRC_EXTRA, sizes and layout for arbitrary values',
             'order_lemma': 'the real comparator closure of Initialize on three field descriptors with type in ' + ('{double, float, uint16, uint8, char}' if tier == 'quick' else 'all 11 field types') + ' (forked), symbolic index and extension flag '
                            '(extensions after base fields): strict total order equal to the MAVLink order; unbounded in the number of fields',
             'crc_extra_and_sizes': 'ground obligations: CRC_EXTRA constant and layout length compared with the values an independent '
